@@ -80,7 +80,7 @@ LEVEL = {
             'note': _TB + 'math/rand is an oracle; the wall clock is read by the command (small steps make every alignment of the instant occur).'},
     'C06': {'text': 'Theorems: file length = header + 12 per slot; big-endian header in the classic field order with archives contiguous; offsets of a validated header are the running sums; '
                     'Open on the laid-out bytes returns the same header and every slot. Reader agreement: whispertool, the real go-whisper and both reader models are run on the same bytes '
-                    'written by either library (PARTIAL: the reader-agreement theorem gw_fetch = fetch is not yet proved).',
+                    'written by either library; and C06_readers_agree: the reference reader model returns no series exactly when whispertool does and otherwise the very same series, for every clock of the domain and every window not degenerate on a never-written archive.',
             'design_ref': '5 C06',
             'note': _TB + 'go-whisper is modelled by Model/GoWhisperRef.v (its Fetch for the classic format), validated against the real go-whisper on every run.'},
     'C13': {'text': 'PARTIAL (protocol level). Theorems for every schedule: mutual exclusion is an invariant; the disk left by any interleaving is the sequential composition of the sessions in '
